@@ -52,11 +52,6 @@ func replayDetImpl(c *Ctx, raw json.RawMessage) bool {
 			if ar.Stdout != first {
 				return true
 			}
-			for _, rec := range ar.Log {
-				if cl, _ := classOf(rec.Argv); strings.HasPrefix(cl, "other:") {
-					return true
-				}
-			}
 		}
 	}
 	return false
